@@ -29,6 +29,7 @@ def plan(tier, seed):
         specs.append({"name": "dual-" + tpl, "kind": "dual", "tpl": tpl, "n": n, "timeout": 2400})
     specs.append({"name": "migmat", "kind": "migmat", "n": 4 if q else 16, "timeout": 2400})
     specs.append({"name": "migwindow", "kind": "migwindow", "n": 4 if q else 16, "timeout": 2400})
+    specs.append({"name": "samepulse", "kind": "samepulse", "n": 2 if q else 8, "timeout": 2400})
     specs.append({"name": "invariance", "kind": "invariance", "n": 6 if q else 40, "timeout": 2400})
     specs.append({"name": "yaml", "kind": "yaml", "once": True, "timeout": 2400})
     specs.append({"name": "ancient", "kind": "ancient", "n": 4 if q else 24, "timeout": 2400})
@@ -62,7 +63,7 @@ def cmp(a, b):
 def run(spec, rec):
     import dadi
     import demes
-    {"dual": run_dual, "migmat": run_migmat, "migwindow": run_migwindow, "invariance": run_invariance, "yaml": run_yaml, "ancient": run_ancient, "export": run_export,
+    {"dual": run_dual, "migmat": run_migmat, "migwindow": run_migwindow, "samepulse": run_samepulse, "invariance": run_invariance, "yaml": run_yaml, "ancient": run_ancient, "export": run_export,
      "slice": run_slice, "ancient5": run_ancient5}[spec["kind"]](spec, rec, dadi, demes)
 
 
@@ -497,6 +498,65 @@ def run_migwindow(spec, rec, dadi, demes):
             rec.incon("emitter produced an invalid graph for the migration-window template: %r" % (g,))
             continue
         ok1, fd = rec.noraise("from_demes-returns", lambda: Spectrum.from_demes(g, ["A", "B"], ns, pts), site="Spectrum.from_demes", tags=tags)
+        ok2, fh = rec.noraise("program-returns", lambda: Numerics.make_extrap_func(prog)(ns, pts), site="dadi program", tags=tags)
+        if ok1 and ok2:
+            rec.close("demes-equals-program", cmp(fd.data, fh.data), TOL, site="Spectrum.from_demes", tags=tags)
+
+
+def run_samepulse(spec, rec, dadi, demes):
+    """two pulses at exactly the same time that share a deme (A into B, then B into C): they are applied in the order the graph
+    lists them, so part of what reached B from A goes on to C"""
+    from dadi import Numerics, PhiManip, Integration, Spectrum
+    for ci in range(spec["n"]):
+        rng = rng_for(spec["seed"], "C16samepulse", ci)
+        N0 = 1000.0
+        t1 = float(rng.uniform(700, 1200))
+        t2 = float(rng.uniform(300, t1 - 150))
+        tp = float(rng.uniform(40, t2 - 60))
+        NA, NB, NC = [logu(rng, 400, 3000) for _ in range(3)]
+        f1, f2 = float(rng.uniform(0.1, 0.45)), float(rng.uniform(0.1, 0.45))
+        chain = [("A", "B", f1), ("B", "C", f2)] if ci % 2 == 0 else [("C", "B", f1), ("B", "A", f2)]
+
+        def build():
+            b = demes.Builder(time_units="generations")
+            b.add_deme("anc", epochs=[dict(start_size=N0, end_time=t1)])
+            b.add_deme("A", ancestors=["anc"], epochs=[dict(start_size=NA, end_time=0)])
+            b.add_deme("B", ancestors=["anc"], epochs=[dict(start_size=NB, end_time=0)])
+            b.add_deme("C", ancestors=["A"], start_time=t2, epochs=[dict(start_size=NC, end_time=0)])
+            for src, dst, f in chain:
+                b.add_pulse(sources=[src], dest=dst, proportions=[f], time=tp)
+            return b.resolve()
+        ax = {"A": 0, "B": 1, "C": 2}
+
+        def pulse(phi, xx, src, dst, f):
+            # f of dst is replaced by src: the two-source pulse functions with the third population contributing nothing
+            fn = {2: PhiManip.phi_3D_admix_1_and_2_into_3, 1: PhiManip.phi_3D_admix_1_and_3_into_2, 0: PhiManip.phi_3D_admix_2_and_3_into_1}[ax[dst]]
+            others = [k for k in range(3) if k != ax[dst]]
+            fs_ = [f if k == ax[src] else 0.0 for k in others]
+            return fn(phi, fs_[0], fs_[1], xx, xx, xx)
+
+        def prog(ns_, p):
+            xx = Numerics.default_grid(p)
+            phi = PhiManip.phi_1D(xx)
+            phi = PhiManip.phi_1D_to_2D(xx, phi)
+            phi = Integration.two_pops(phi, xx, (t1 - t2) / (2 * N0), nu1=NA / N0, nu2=NB / N0)
+            phi = PhiManip.phi_2D_to_3D_split_1(xx, phi)
+            kw = dict(nu1=NA / N0, nu2=NB / N0, nu3=NC / N0)
+            phi = Integration.three_pops(phi, xx, (t2 - tp) / (2 * N0), **kw)
+            for src, dst, f in chain:
+                phi = pulse(phi, xx, src, dst, f)
+            phi = Integration.three_pops(phi, xx, tp / (2 * N0), **kw)
+            return Spectrum.from_phi(phi, ns_, (xx, xx, xx))
+        ns = [int(rng.integers(2, 5)) for _ in range(3)]
+        pts = [12, 16, 20]
+        if not rec.case("samepulse-%d" % ci, {"t": (t1, t2, tp), "chain": chain, "ns": ns}, nontrivial=True):
+            continue
+        tags = {"template": "same-time-pulses"}
+        ok, g = rec.noraise("graph-builds", build, site="demes.Builder", tags=tags)
+        if not ok:
+            rec.incon("emitter produced an invalid graph for the same-time-pulses template: %r" % (g,))
+            continue
+        ok1, fd = rec.noraise("from_demes-returns", lambda: Spectrum.from_demes(g, ["A", "B", "C"], ns, pts), site="Spectrum.from_demes", tags=tags)
         ok2, fh = rec.noraise("program-returns", lambda: Numerics.make_extrap_func(prog)(ns, pts), site="dadi program", tags=tags)
         if ok1 and ok2:
             rec.close("demes-equals-program", cmp(fd.data, fh.data), TOL, site="Spectrum.from_demes", tags=tags)
